@@ -2,6 +2,8 @@ package sym
 
 import (
 	"crypto/sha256"
+	"fmt"
+	"os"
 	"math/big"
 
 	"symgo/smt"
@@ -253,6 +255,17 @@ func (it *Interp) sampleWitness(c *smt.Term) map[*smt.Term]*smt.Term {
 		for _, p := range all {
 			if r := s.ev(p); r == nil || !r.IsTrue() {
 				good = false
+				if it.Cfg.Verbose > 1 && k == 13 {
+					st := "false"
+					if r == nil {
+						st = "not evaluable"
+					}
+					txt := it.C.String(p)
+					if len(txt) > 300 {
+						txt = txt[:300]
+					}
+					fmt.Fprintf(os.Stderr, "sample witness: conjunct %s: %s\n", st, txt)
+				}
 				break
 			}
 		}
